@@ -177,6 +177,8 @@ class WriterShapes:
         self.ctx = ctx
         self.prog = ctx.prog
         self._cache = {}
+        self.opaque = set()     # key-path prefixes (relative to the function they were met in) whose mapping is built
+                                # by something this extraction does not read: absence of a key below is not known
 
     def of_func(self, f: Func, depth=0) -> list[WFact]:
         """facts for the value RETURNED by f (dict), or by index for tuple returns: see of_return."""
@@ -196,7 +198,16 @@ class WriterShapes:
                 if idx is not None:
                     if isinstance(v, ast.Tuple) and idx < len(v.elts):
                         v = v.elts[idx]
+                    elif isinstance(v, ast.Call):
+                        # `return other.to_dict()`: the tuple is built by the callee
+                        res = self.prog.env(f).resolve_call(v)
+                        if res[0] == 'func':
+                            out += self.of_return(res[1], idx, depth + 1)
+                        else:
+                            self.opaque.add(())
+                        continue
                     else:
+                        self.opaque.add(())
                         continue
                 out += self.of_expr(f, v, (), cfg_of(f).node_of(n), depth)
         self._cache[key] = out
@@ -241,11 +252,39 @@ class WriterShapes:
                     out += self.of_expr(f, val, prefix, d, depth)
             out += self._stores_into(f, name, prefix, depth)
             return out
+        if isinstance(v, ast.Call) and isinstance(v.func, ast.Name) and v.func.id == 'dict' and len(v.args) == 1 \
+                and not v.keywords:
+            # dict(<pairs>): a generator expression of (key, value) tuples, or a generator function yielding them
+            a = v.args[0]
+            if isinstance(a, ast.GeneratorExp) and isinstance(a.elt, ast.Tuple) and len(a.elt.elts) == 2:
+                k_, val = a.elt.elts
+                out.append(WFact(prefix + ('*',), val, f, False, 'none', keyexpr=k_, node=at))
+                out += self._comp_value(f, a, val, prefix + ('*',), at, depth)
+                return out
+            if isinstance(a, ast.Call):
+                res = env.resolve_call(a)
+                if res[0] == 'func':
+                    g = res[1]
+                    ys = [y for y in own_nodes(g.node) if isinstance(y, ast.Yield) and isinstance(y.value, ast.Tuple)
+                          and len(y.value.elts) == 2]
+                    if ys and depth < 6:
+                        gcfg = cfg_of(g)
+                        for y in ys:
+                            k_, val = y.value.elts
+                            gat = gcfg.owner(y)
+                            out.append(WFact(prefix + ('*',), val, g, False, 'none', keyexpr=k_, node=gat))
+                            out += self.of_expr(g, val, prefix + ('*',), gat, depth + 1)
+                        return out
+            self.opaque.add(prefix)
+            return out
         if isinstance(v, ast.Call):
             res = env.resolve_call(v)
             if res[0] == 'func':
                 for w in self.of_return(res[1], None, depth + 1):
                     out.append(self._rebase(w, prefix))
+            elif isinstance(v.func, ast.Name) and v.func.id in ('dict', 'OrderedDict', 'defaultdict') or \
+                    (isinstance(v.func, ast.Attribute) and v.func.attr in ('copy', 'fromkeys')):
+                self.opaque.add(prefix)     # a mapping whose keys this extraction does not see
             return out
         if isinstance(v, ast.List):
             for el in v.elts:
